@@ -311,6 +311,130 @@ def rule_std_includes(ctx, px):
     ctx.ob(R, b.module.rel, f"{b.short} :: unions count as integer users (tag field)", ok, "", b.node.lineno)
 
 
+def rule_include_monotone(ctx, px):
+    R = "R-C06-INCLUDE-MONOTONE"
+    ctx.rule(
+        R,
+        "in get_includes of C and C++ the decision to add a standard header depends on the dependency flags only "
+        "positively: a header needed for one feature of a type is never dropped because the type also uses another "
+        "feature (no `elif` / negated dep_types.* flag on the path to an append)",
+    )
+    n = 0
+    for modname in ("nunavut.lang.c", "nunavut.lang.cpp"):
+        f = px.func(modname, "Language.get_includes")
+        for st, gd in pyfront.walk_guarded(f.node.body):
+            if isinstance(st, ast.Expr) and isinstance(st.value, ast.Call) and isinstance(st.value.func, ast.Attribute) \
+                    and st.value.func.attr in ("append", "extend", "insert") and "include" in ast.unparse(st.value.func.value):
+                n += 1
+                terms = pyfront.guard_terms(gd)
+                neg = [e for e, p in terms if not p and "dep_types." in e]
+                what = ast.unparse(st.value.args[0]) if st.value.args else "?"
+                ctx.ob(R, f.module.rel, f"{f.short} :: include {what}", not neg,
+                       "" if not neg else f"added only when NOT ({' / '.join(neg)}): a type that uses both features loses {what} and its header "
+                       "does not compile on its own", st.lineno)
+    ctx.floor(R, n, 8)
+
+
+RV_FORMAT = re.compile(r"^\s*[-+(]*\s*(%[0-9]*[dioxXufeEgG]|[0-9])")
+
+
+def _lvalue_class(N, e, env, depth=0):
+    """'lv' | 'rv' | '?' for a Jinja expression used as a C operand"""
+    if depth > 6:
+        return "?"
+    if isinstance(e, N.Const):
+        if isinstance(e.value, (int, float)):
+            return "rv"
+        if isinstance(e.value, str):
+            if RV_FORMAT.match(e.value):
+                return "rv"
+            if re.match(r"^[A-Za-z_]", e.value):
+                return "lv"
+        return "?"
+    if isinstance(e, N.Filter):
+        if e.name == "to_template_unique_name":
+            return "lv"
+        if e.name == "format" and e.node is not None:
+            c = _lvalue_class(N, e.node, env, depth + 1)
+            if c == "lv" and isinstance(e.node, N.Const) and e.node.value.startswith("%s") and e.args:
+                return _lvalue_class(N, e.args[0], env, depth + 1)
+            return c
+        if e.name in ("literal", "int", "string", "abs", "length", "bits2bytes_ceil", "constant_value"):
+            return "rv"
+        if e.name in ("trim", "id") and e.node is not None:
+            return _lvalue_class(N, e.node, env, depth + 1) if e.name == "trim" else "lv"
+        return "?"
+    if isinstance(e, (N.Add, N.Concat)):
+        first = e.left if isinstance(e, N.Add) else e.nodes[0]
+        return _lvalue_class(N, first, env, depth + 1)
+    if isinstance(e, N.Name):
+        vals = env.get(e.name)
+        if not vals:
+            return "?"
+        cs = {_lvalue_class(N, v, env, depth + 1) for v in vals}
+        if cs == {"lv"}:
+            return "lv"
+        if "rv" in cs:
+            return "rv"
+        return "?"
+    if isinstance(e, N.CondExpr):
+        cs = {_lvalue_class(N, e.expr1, env, depth + 1), _lvalue_class(N, e.expr2, env, depth + 1) if e.expr2 is not None else "?"}
+        return "rv" if "rv" in cs else ("lv" if cs == {"lv"} else "?")
+    return "?"
+
+
+def rule_address_of(ctx, ts):
+    R = "R-C06-ADDRESS-OF"
+    ctx.rule(
+        R,
+        "where a C/C++ template takes the address of a macro parameter (`&{{ p }}` on some path, e.g. the memmove fast "
+        "paths), every call site passes something lvalue-shaped for it (a variable name / member reference), never a "
+        "literal such as '%dUL'|format(n)",
+    )
+    N = ts.nodes
+    n = 0
+    for lang in ("c", "cpp"):
+        orc = j2front.GuardOracle(ts, lang)
+        for t in ts.of_lang(lang, "templates"):
+            for mname, m in ts.macros(t).items():
+                params = [a.name for a in m.args]
+                # parameters (or locals aliasing them via {% set v = p %}) whose address is taken
+                alias = {p: {p} for p in params}
+                for a in m.find_all(N.Assign):
+                    if isinstance(a.target, N.Name) and isinstance(a.node, N.Name) and a.node.name in params:
+                        alias[a.node.name].add(a.target.name)
+                addr = set()
+                for o in m.find_all(N.Output):
+                    for i, e in enumerate(o.nodes):
+                        if i > 0 and isinstance(o.nodes[i - 1], N.TemplateData) and re.search(r"(^|[\s(,])&$", o.nodes[i - 1].data) and isinstance(e, N.Name):
+                            for p, al in alias.items():
+                                if e.name in al:
+                                    addr.add(p)
+                for p in sorted(addr):
+                    idx = params.index(p)
+                    hosts = {id(h): h for h, _ in orc.call_sites.get((t.name, mname), [])}
+                    for host in hosts.values():
+                        for c in host.ast.find_all(N.Call):
+                            nm = c.node.name if isinstance(c.node, N.Name) else (c.node.attr if isinstance(c.node, N.Getattr) else None)
+                            if nm != mname or idx >= len(c.args):
+                                continue
+                            arg = c.args[idx]
+                            # environment: {% set %} bindings of the enclosing macro in the host template
+                            env = {}
+                            for hm in ts.macros(host).values():
+                                if any(x is c for x in hm.find_all(N.Call)):
+                                    for a in hm.find_all(N.Assign):
+                                        if isinstance(a.target, N.Name):
+                                            env.setdefault(a.target.name, []).append(a.node)
+                            cls = _lvalue_class(N, arg, env)
+                            n += 1
+                            ctx.ob(R, host.rel, f"{mname}(.. {p}={xs(arg)[:60]} ..)", cls != "rv",
+                                   ("lvalue-shaped" if cls == "lv" else "not a literal") if cls != "rv" else
+                                   f"`{mname}` takes the address of `{p}` on one of its paths (e.g. the little-endian memmove fast path) but this "
+                                   "call passes a literal: the generated code contains `&<literal>` and does not compile under that option", c.lineno)
+    ctx.floor(R, n, 6)
+
+
 BOL, NOTBOL, UNK = "bol", "notbol", "unknown"
 DIRECTIVE = re.compile(r"#[ \t]*(ifdef|ifndef|if|elif|else|endif|define|undef|include|error|pragma)\b")
 
@@ -491,5 +615,7 @@ def run(ctx):
     rule_options(ctx, ts, reg)
     rule_omit_scope(ctx, ts, px)
     rule_std_includes(ctx, px)
+    rule_include_monotone(ctx, px)
+    rule_address_of(ctx, ts)
     rule_directive_bol(ctx, ts)
     rule_pairing(ctx, ts)
